@@ -188,6 +188,6 @@ crate::harnesses! { REG;
     #[unwind(12)]
     fn c04_batch_mul_f13() { batch_mul::<DF13>(1) }
     /// thorough required timeout=2400 unwindset=BitIteratorLE:66 | BatchMulPreprocessing with 1 and 33 scalars (window rule switch), scalar field F_61 (6 bits = exact multiple of the window)
-    #[unwind(12)]
+    #[unwind(40)]
     fn c04_batch_mul_f61() { batch_mul::<DF61>(1); batch_mul::<DF61>(33) }
 }
